@@ -89,6 +89,12 @@ def make_case(rng):
     nank = "none"
     if not skind.startswith("tail") and rng.uniform() < 0.4:
         nank, E = gs.apply_nan(rng, E, str(rng.choice(["single", "run", "scatter"])))
+    if skind == "tailmin" and rng.uniform() < 0.5:
+        # a missing bin inside the shortest admissible range: every averaging window contains it (1D input only: in
+        # the 1D reduction of a 2D spectrum a missing bin counts as zero energy, so the range is no longer c*f^-4)
+        E = np.array(np.broadcast_to(E, shape), dtype=float)
+        E[..., i_start + int(rng.integers(3, 18))] = np.nan
+        nank = "inside-range"
     if skind.startswith("tail") and not skind.startswith("tailmin"):
         u = rng.uniform()
         if u < 0.25:
@@ -240,6 +246,22 @@ def judge(ctx, case):
         if ok3 and ok4:
             ctx.close("C12.scale-linear", fs["friction_velocity"].values, cfac * f0["friction_velocity"].values,
                       atol=0, rtol=1e-9, case=lambda: {"gen": case, "method": method, "c": cfac}, key="C12:scale")
+    # one object asked twice: a "peak" estimate followed by a "mean" estimate must give what a fresh object gives
+    if tail:
+        sh = gs.build(case)
+        okp, _ = guarded(ctx, "C12.no-exception", lambda: estimate_u10_from_spectrum(sh, method="peak", **P),
+                         lambda: {"gen": case, "history": True}, key="C12:exception")
+        okm, mh = guarded(ctx, "C12.no-exception", lambda: estimate_u10_from_spectrum(sh, method="mean", **P),
+                          lambda: {"gen": case, "history": True}, key="C12:exception")
+        okf, mf = guarded(ctx, "C12.no-exception", lambda: estimate_u10_from_spectrum(gs.build(case), method="mean", **P),
+                          lambda: {"gen": case, "history": True}, key="C12:exception")
+        if okp and okm and okf:
+            ctx.count("C12.histories(peak then mean on one object)")
+            same = all(np.array_equal(np.asarray(mh[v].values), np.asarray(mf[v].values), equal_nan=True)
+                       for v in ("friction_velocity", "u10", "direction"))
+            ctx.check("C12.history==fresh-object", bool(same), lambda: {"gen": case, "history": True},
+                      {"after_peak_estimate": mh["friction_velocity"].values, "fresh_object": mf["friction_velocity"].values},
+                      key="C12:history:mean-after-peak")
     # 2D input == its 1D reduction
     if case["ekind"].endswith("2d"):
         c2 = to_2d(case)
